@@ -65,6 +65,8 @@ struct DaemonSim {
     iterations: u64,
     dead: bool,
     panicked: bool,
+    hold_exit: bool,
+    in_exit_window: bool,
 }
 
 #[derive(Default)]
@@ -86,6 +88,9 @@ pub enum Parked {
     Dead { panicked: bool },
     /// did not park within the real-time limit
     Timeout,
+    /// held (on request, see `hold_exit`) after Exit was processed and the
+    /// command queue drained, before the command receiver is dropped
+    InExitWindow,
 }
 
 #[derive(Default)]
@@ -233,6 +238,9 @@ impl World {
                         panicked: s.panicked,
                     };
                 }
+                if s.in_exit_window {
+                    return Parked::InExitWindow;
+                }
                 if s.at_gate && s.permits == 0 && !s.free_run {
                     return Parked::AtGate {
                         wake: s.wake,
@@ -264,6 +272,13 @@ impl World {
     pub fn step(&self, d: usize, limit: Duration) -> Parked {
         self.grant(d);
         self.wait_parked(d, limit)
+    }
+
+    /// Asks daemon `d` to stop in its exit window (see `Parked::InExitWindow`).
+    pub fn hold_exit(&self, d: usize, on: bool) {
+        let mut g = self.lock();
+        g.daemons[d].hold_exit = on;
+        self.cv.notify_all();
     }
 
     /// Switches daemon `d` to free-run mode: the gate no longer parks, the
@@ -348,6 +363,31 @@ pub(crate) fn adopt_world(signal_addr: SocketAddr) -> DaemonGuard {
         }
         None => DaemonGuard(None),
     }
+}
+
+/// Called by the run loop after Exit was processed and the queue drained.
+pub(crate) fn exit_window() {
+    let (w, d) = match current() {
+        Some(Binding {
+            world,
+            daemon: Some(d),
+            ..
+        }) => (world, d),
+        _ => return,
+    };
+    let mut g = w.lock();
+    if !g.daemons[d].hold_exit {
+        return;
+    }
+    g.daemons[d].in_exit_window = true;
+    w.cv.notify_all();
+    while g.daemons[d].hold_exit {
+        g = match w.cv.wait(g) {
+            Ok(x) => x,
+            Err(p) => p.into_inner(),
+        };
+    }
+    g.daemons[d].in_exit_window = false;
 }
 
 pub(crate) enum Gate {
